@@ -13,6 +13,8 @@ inductive Verdict
   | ok
   /-- a build attempt returned an error and a reservation it made is still held -/
   | failedBuildKeepsReservations (step : Nat) (leaked : List Nat)
+  /-- `Start`'s open phase failed and a reservation made for that run is still held -/
+  | failedOpenKeepsReservations (step : Nat) (leaked : List Nat)
   /-- every run has ended and a reservation is still held -/
   | heldAfterAllRunsEnded (step : Nat) (heldIds : List Nat)
   /-- with no run live, a build's result differs from the result on the same configuration with nothing reserved -/
@@ -20,7 +22,8 @@ inductive Verdict
   deriving DecidableEq, Repr, Inhabited
 
 /-- `noLeakAfterFailedBuild` and its companions, on the transitions of a run, first failure first:
-* after an attempt that returned an error no reservation made by that attempt is held;
+* after an attempt that returned an error no reservation made by that attempt is held; the same after a
+  `Start` whose open phase failed;
 * once every live run has ended nothing is reserved;
 * with no run live, a configuration builds iff it builds from scratch (a repaired configuration builds). -/
 def monitorFrom (eng : Eng) (k : Nat) : List (St × Step × St × Obs) → Verdict
@@ -29,9 +32,20 @@ def monitorFrom (eng : Eng) (k : Nat) : List (St × Step × St × Obs) → Verdi
     let v : Verdict :=
       match e, o with
       | .build, .built out h =>
-        if s.live.isEmpty ∧ out ≠ (attempt eng [] s.cfg).1 then .resultDependsOnHistory k
+        if s.live.isEmpty ∧ out ≠ (attempt eng [] [] s.cfg).1 then .resultDependsOnHistory k
         else if out ≠ .ok ∧ added s.held h ≠ [] then .failedBuildKeepsReservations k (added s.held h)
         else .ok
+      | .start, .started out h =>
+        let clean := (attempt eng [] [] s.cfg).1
+        let dep : Bool := s.live.isEmpty && (match out with
+          | .buildErr e => decide (clean ≠ .err e)
+          | .plRunning => false
+          | _ => decide (clean ≠ .ok))
+        if dep then .resultDependsOnHistory k
+        else match out with
+          | .buildErr _ => if added s.held h ≠ [] then .failedBuildKeepsReservations k (added s.held h) else .ok
+          | .openFailed => if added s.held h ≠ [] then .failedOpenKeepsReservations k (added s.held h) else .ok
+          | _ => .ok
       | .teardown, .torn h => if h ≠ [] then .heldAfterAllRunsEnded k h else .ok
       | _, _ => if s'.held = s.held then .ok else .heldAfterAllRunsEnded k s'.held
     if v = .ok then monitorFrom eng (k+1) rest else v
